@@ -3,7 +3,7 @@ from __future__ import annotations
 
 import ast
 
-from ..loader import AnalysisError
+from ..loader import AnalysisError, norm
 from ..pegir import FrontEndError, canon, decompile_parser, first_difference, parse_ebnf, read_model
 from ..report import RuleReport
 
@@ -210,4 +210,44 @@ def r7_generated_primitives(a, tier):
     return rep
 
 
-RULES = [r1_ebnf_vs_parser, r2_ebnf_vs_model, r3_config, r4_regeneration_literals, r5_regeneration_config, r6_optimizer, r7_generated_primitives]
+def _reads_running_config(tree: ast.AST) -> list[ast.AST]:
+    """reads of the configuration of the parser that runs the action: self.context.config..., getattr(self.context, 'config' ...),
+    self.context._config / .settings"""
+    hits = []
+    for n in ast.walk(tree):
+        if isinstance(n, ast.Attribute) and isinstance(n.ctx, ast.Load) and n.attr in ('config', '_config', 'settings', 'active_config', '_active_config') \
+                and norm(n.value).split('.')[:2] == ['self', 'context']:
+            hits.append(n)
+        if isinstance(n, ast.Call) and isinstance(n.func, ast.Name) and n.func.id == 'getattr' and len(n.args) >= 2 and norm(n.args[0]).startswith('self.context') \
+                and isinstance(n.args[1], ast.Constant) and isinstance(n.args[1].value, str) and 'config' in n.args[1].value:
+            hits.append(n)
+    return hits
+
+
+def r8_text_determines_the_model(a, tier):
+    rep = RuleReport(
+        'C15.R8',
+        'the model a grammar text compiles to is a function of the text: the same text is read by the shipped generated parser, by the '
+        'parser regenerated from the grammar file and by the model compiled from the grammar file, whose configurations differ (the TatSu '
+        'grammar carries its own directives, e.g. @@left_recursion :: False) - so the semantic actions that build the model '
+        '(GrammarSemantics) read nothing of the configuration of the parser that runs them (self.context.config ...): a setting taken from '
+        'there makes the three parsers build different models, or accept different texts',
+        floor=1,
+    )
+    probe = ast.parse("x = getattr(self.context, 'config', None)\ny = self.context.config.left_recursion\nz = self.context.pos\n")
+    if len(_reads_running_config(probe)) != 2:
+        raise AnalysisError('C15.R8: the matcher does not recognise its own positive examples')
+    gs = a.p.classes.get('tatsu.peg.semantics.GrammarSemantics')
+    if gs is None:
+        raise AnalysisError('GrammarSemantics not found')
+    for mname, m_ in sorted(gs.methods.items()):
+        hits = _reads_running_config(m_.node)
+        rep.add({'action': mname, 'reads_of_the_running_parser_configuration': [norm(h) for h in hits]})
+        for h in hits:
+            rep.fail(m_.qualname, f'running-config:{norm(h)[:40]}', f'`{norm(h)}` in GrammarSemantics.{mname} reads the configuration of the parser that is reading the grammar text: '
+                     f'the model built from a text then depends on which parser read it (the compiled grammar file carries @@left_recursion :: False, the shipped '
+                     f'bootstrap parser does not)', f'{m_.module.relpath}:{h.lineno}')
+    return rep
+
+
+RULES = [r1_ebnf_vs_parser, r2_ebnf_vs_model, r3_config, r4_regeneration_literals, r5_regeneration_config, r6_optimizer, r7_generated_primitives, r8_text_determines_the_model]
